@@ -1,6 +1,7 @@
 """C12: checkpoint / resume of streaming aggregation state, driven through the REAL public API.
 
-case = {"pipe": id, "rows": [[x, y, k]...], "sizes": [...]}      (time index: one row per second)
+case = {"pipe": id, "rows": [[x, y, k]...], "sizes": [...], "ex": "row" | "empty"}   (time index: one row per second;
+       "ex" = the `example` frame given to the streaming DataFrame: one row stamped at second 0, or no rows)
 For every cut k (1 <= k < number of batches) at which the uninterrupted run exposed a state:
    fresh Stream + DataFrame, the same aggregation built with start=<copy of the state emitted after batch k>,
    remaining batches fed, (state, result) pairs compared EXACTLY with the uninterrupted run's suffix.
@@ -70,6 +71,8 @@ _reg("win3.x.var", "with_state", lambda d, st: d.window(n=3, with_state=True, st
 _reg("win2.x.size", "with_state", lambda d, st: d.window(n=2, with_state=True, start=st).x.size, None, "window-n")
 _reg("win3.k.value_counts", "with_state", lambda d, st: d.window(n=3, with_state=True, start=st).k.value_counts(), None, "window-n")
 _reg("win2.xy.sum", "with_state", lambda d, st: d.window(n=2, with_state=True, start=st)[XY].sum(), None, "window-n")
+_reg("win3.x.std", "with_state", lambda d, st: d.window(n=3, with_state=True, start=st).x.std(), None, "window-n")
+_reg("es.std1", "with_state", lambda d, st: d.expanding(with_state=True, start=st).x.std(), None, "expanding")
 # ---- time windows
 _reg("wint2.x.sum", "with_state", lambda d, st: d.window(value="2s", with_state=True, start=st).x.sum(), None, "window-time")
 _reg("wint3.x.mean", "with_state", lambda d, st: d.window(value="3s", with_state=True, start=st).x.mean(), None, "window-time")
@@ -147,13 +150,13 @@ def _acc_node(stream):
     return n
 
 
-def _run(pipe, start, batches):
+def _run(pipe, start, batches, ex="row"):
     """-> list per batch of ("ok", state_copy, state_ref, result) | ("exc", name)"""
     from streamz import Stream
     from streamz.dataframe import DataFrame
     p = PIPES[pipe]
     src = Stream()
-    sdf = DataFrame(src, example=dfc.example_df("float", "row", index="time"))
+    sdf = DataFrame(src, example=dfc.example_df("float", ex, index="time"))
     out = p["build"](sdf, start)
     node = _acc_node(out.stream)
     L = out.stream.sink_to_list()
@@ -191,12 +194,20 @@ def check(case):
         warnings.simplefilter("ignore")
         batches = dfc.batches_of(case["rows"], case["sizes"], "float", index="time")
         try:
-            full = _run(pipe, None, batches)
+            full = _run(pipe, None, batches, case.get("ex", "row"))
         except Exception as e:      # noqa: BLE001
             out["findings"].append(("C12/%s/construction-raises/%s" % (grp, type(e).__name__),
                                     "%s: building the pipeline with start=None raised %r" % (pipe, e), 0))
             return out
         out["full"] = full
+        # (0) asking for the state must not break the aggregation itself
+        seen = 0
+        for k, (rec, b) in enumerate(zip(full, batches)):
+            seen += len(b)
+            if rec[0] == "exc" and seen > 0:
+                out["findings"].append(("C12/%s/with-state-run-raises/%s/%s" % (grp, pipe.split(".")[-1].rstrip("01"), rec[1]),
+                                        "%s: with the state exposed, the emit of batch %d (non-empty prefix) failed: %s" % (pipe, k + 1, rec[1]), k + 1))
+                break
         # (a) later batches must not alter a state already emitted
         for k, rec in enumerate(full):
             if rec[0] == "ok" and not same(rec[1], rec[2]):
@@ -211,7 +222,7 @@ def check(case):
             start = copy.deepcopy(rec[1])
             pristine = copy.deepcopy(rec[1])
             try:
-                resumed = _run(pipe, start, batches[k:])
+                resumed = _run(pipe, start, batches[k:], case.get("ex", "row"))
             except Exception as e:      # noqa: BLE001
                 out["findings"].append(("C12/%s/resume-construction-raises/%s" % (grp, type(e).__name__),
                                         "%s: building the pipeline with start=<state after batch %d> raised %r; state %s"
